@@ -231,3 +231,50 @@ Proof.
   rewrite (channel_writer_is_sample_writer enc_block md5 Debug o rate bps ch total ts w ws chunks Hwf Hnew Hs Et Hchunks).
   exact (FlacWriters.Props_C08.C08_no_panic_sample_debug enc_block md5 [] o rate bps ch ts ws _ Hmd Henc Hwf Hs).
 Qed.
+
+(* C15 declared-length contract (soundness) for the other two front-ends, by equality of runs *)
+From FlacWriters Require Props_C15 Encoder_proofs.
+
+Theorem byte_length_contract : forall enc_block md5 p en o rate bps ch total w (chunks : list (list N)) f,
+  (forall l, length (md5 l) = 16%nat) ->
+  options_wf o -> byte_new p en [] o rate bps ch total = Ok w -> Forall byte_ok (concat chunks) ->
+  byte_run enc_block md5 p w chunks = Ok f -> FlacWriters.Encoder_proofs.counters_fit (f_enc f) ->
+  let nb := bytes_per_sample_of bps in
+  let samples := decoded en (N.to_nat nb) (concat chunks) in
+  exists cs r, drain (N.to_nat (ch * o_block_size o)) samples = (cs, r) /\
+    let written := o_block_size o * N.of_nat (length cs) + N.of_nat (length r) / ch in
+    si_total (f_si f) = Some written /\ 1 <= written < MAX_SAMPLES /\
+    match total with Some t => t = nb * (ch * written) | None => True end.
+Proof.
+  intros enc_block md5 p en o rate bps ch total w chunks f Hmd Hwf Hnew Hbytes Hrun Hfit nb samples.
+  destruct (byte_new_sample_new p en o rate bps ch total w Hnew) as (ts & ws & Hs & Et).
+  rewrite (byte_writer_is_sample_writer enc_block md5 p en o rate bps ch total ts w ws chunks Hwf Hnew Hs Et Hbytes) in Hrun.
+  fold nb in Hrun. fold samples in Hrun.
+  destruct (FlacWriters.Props_C15.C15_length_contract_sample enc_block md5 p [] o rate bps ch ts ws [samples] f Hmd Hwf Hs Hrun Hfit)
+    as (cs & r & Hd & Ht & Hr & Htot).
+  cbn [concat] in Hd. rewrite app_nil_r in Hd.
+  exists cs, r. split; [exact Hd|]. split; [exact Ht|]. split; [exact Hr|].
+  subst total. destruct ts as [t|]; cbn [option_map]; [|exact I]. fold nb. rewrite Htot. reflexivity.
+Qed.
+
+Theorem channel_length_contract : forall enc_block md5 p o rate bps ch total w (chunks : list (list (list Z))) f,
+  (forall l, length (md5 l) = 16%nat) -> 1 <= ch ->
+  options_wf o -> channel_new p [] o rate bps ch total = Ok w -> Forall (chunk_ok (N.to_nat ch)) chunks ->
+  channel_run enc_block md5 p w chunks = Ok f -> FlacWriters.Encoder_proofs.counters_fit (f_enc f) ->
+  let samples := concat (multizip (cconcat (N.to_nat ch) chunks)) in
+  exists cs r, drain (N.to_nat (ch * o_block_size o)) samples = (cs, r) /\
+    let written := o_block_size o * N.of_nat (length cs) + N.of_nat (length r) / ch in
+    si_total (f_si f) = Some written /\ 1 <= written < MAX_SAMPLES /\
+    match total with Some t => t = written | None => True end.
+Proof.
+  intros enc_block md5 p o rate bps ch total w chunks f Hmd Hch Hwf Hnew Hchunks Hrun Hfit samples.
+  destruct (channel_new_sample_new p o rate bps ch total w Hnew) as (ts & ws & Hs & Et).
+  rewrite (channel_writer_is_sample_writer enc_block md5 p o rate bps ch total ts w ws chunks Hwf Hnew Hs Et Hchunks) in Hrun.
+  fold samples in Hrun.
+  destruct (FlacWriters.Props_C15.C15_length_contract_sample enc_block md5 p [] o rate bps ch ts ws [samples] f Hmd Hwf Hs Hrun Hfit)
+    as (cs & r & Hd & Ht & Hr & Htot).
+  cbn [concat] in Hd. rewrite app_nil_r in Hd.
+  exists cs, r. split; [exact Hd|]. split; [exact Ht|]. split; [exact Hr|].
+  subst ts. destruct total as [t|]; cbn [option_map] in Htot; [|exact I].
+  apply N.mul_cancel_l in Htot; [exact Htot|lia].
+Qed.
